@@ -105,6 +105,11 @@ func init() {
 		imports: []string{"CircuitModel.GoLiveCfgPrims"}, open: []string{"CM", "CM.Go", "CM.GoLiveCfg"}, vars: "", monad: "LM",
 		types: map[string]string{"Config": "GoConfig"},
 	}
+	units["GoSetCfg"] = &unit{
+		name: "GoSetCfg", file: "circuit.go", recv: "Circuit", funcs: []string{"SetConfigThreadSafe", "SetConfigNotThreadSafe", "Config"},
+		imports: []string{"CircuitModel.GoSetCfgPrims"}, open: []string{"CM", "CM.Go", "CM.GoSetCfg"}, vars: "", monad: "BM",
+		types: map[string]string{"Config": "CfgB"},
+	}
 	units["GoStream"] = &unit{
 		name: "GoStream", file: "metriceventstream/metriceventstream.go", recv: "", funcs: []string{"collectCommandMetrics", "generateLatencyTimings"},
 		imports: []string{"CircuitModel.GoStreamPrims"}, open: []string{"CM", "CM.Go", "CM.GoStream"}, vars: "", monad: "EM",
@@ -348,6 +353,13 @@ func (t *tr) expr(e ast.Expr) string {
 		bad(e, "selector root is neither the receiver, a local nor an imported package")
 	case *ast.CallExpr:
 		return t.call(x)
+	case *ast.TypeAssertExpr:
+		// x.(T): (value, ok) — only the two-value form occurs in assignments of the translated subset
+		if x.Type == nil {
+			bad(e, "type switch")
+		}
+		tn := strings.NewReplacer("*", "", ".", "_").Replace(src(x.Type))
+		return "(← as_" + tn + " " + t.atom(x.X) + ")"
 	case *ast.FuncLit:
 		// a one-line pure closure: func(params) T { return <expr without calls> }
 		if len(x.Body.List) == 1 {
@@ -493,6 +505,40 @@ func (t *tr) composite(cl *ast.CompositeLit) string {
 }
 
 func (t *tr) call(c *ast.CallExpr) string {
+	if id, ok := c.Fun.(*ast.Ident); ok && !t.locals[id.Name] {
+		switch id.Name {
+		case "append":
+			// append(s, a, b) / append(s, more...)
+			if len(c.Args) >= 1 {
+				base := t.atom(c.Args[0])
+				if c.Ellipsis != token.NoPos {
+					if len(c.Args) != 2 {
+						bad(c, "append with spread")
+					}
+					return "(" + base + " ++ " + t.atom(c.Args[1]) + ")"
+				}
+				var els []string
+				for _, a := range c.Args[1:] {
+					els = append(els, t.expr(a))
+				}
+				return "(" + base + " ++ [" + strings.Join(els, ", ") + "])"
+			}
+		case "make":
+			// make([]T, 0, cap): the empty slice (the capacity is not observable)
+			if len(c.Args) >= 2 {
+				if _, ok := c.Args[0].(*ast.ArrayType); ok {
+					if bl, ok := c.Args[1].(*ast.BasicLit); ok && bl.Value == "0" {
+						return "[]"
+					}
+				}
+			}
+			bad(c, "make form")
+		case "len":
+			if len(c.Args) == 1 {
+				return "(goLen " + t.atom(c.Args[0]) + ")"
+			}
+		}
+	}
 	if c.Ellipsis != token.NoPos {
 		bad(c, "variadic call")
 	}
